@@ -261,16 +261,21 @@ Definition op_of (n : N) : rop :=
   | 0%N => Orule | 1%N => Omappings | 2%N => Ocount | 3%N => Oits | 4%N => Osmarts | _ => Osmiles
   end.
 
+(** SynReactor._wrap_template: the rule the reactor works with, from a template graph / string ([synrule_obj] = false) or
+    from a SynRule object the caller built in the reactor's hydrogen mode *)
+Definition mk_rule (invert implicit_temp synrule_obj : bool) (tpl : its) : option triple :=
+  if synrule_obj
+  then match synrule tpl (negb implicit_temp) with
+       | None => None
+       | Some rule0 => wrap_template_rule invert implicit_temp rule0
+       end
+  else synrule (if invert then invert_template tpl else tpl) (negb implicit_temp).
+
 (** one reactor, a script of reads; [sers]: the RDKit strings by position in its_list *)
 Definition run_reads (invert implicit_temp explicit_stage synrule_obj : bool) (host : hostg) (tpl : its)
                      (calls : list call) (tbls : list (list (list (list N)))) (sers : list (option str * option str))
                      (ops : list N) : tok :=
-  let rule := if synrule_obj
-              then match synrule tpl (negb implicit_temp) with
-                   | None => None
-                   | Some rule0 => wrap_template_rule invert implicit_temp rule0
-                   end
-              else synrule (if invert then invert_template tpl else tpl) (negb implicit_temp) in
+  let rule := mk_rule invert implicit_temp synrule_obj tpl in
   let inp := RI invert explicit_stage host rule calls tbls (fun i _ => nth i sers (None, None)) in
   (* "old" atoms of the i-th result = the atoms of the i-th glued graph (everything that is not created by _explicit_h);
      the harness restricts to the same sets *)
